@@ -15,7 +15,7 @@ from . import common
 
 ID = "C13"
 RUNS = {"quick": 7000, "thorough": 300000}
-TIME = {"quick": 75, "thorough": 1500}
+TIME = {"quick": 150, "thorough": 1500}
 RULES = ("IRV", "SNTV", "SequentialRCV", "Alaska", "Alaska", "TopTwo", "TopTwo")
 RULE_TEXT = (
     "case = seeded (profile, IRV|SNTV|SequentialRCV|Alaska|TopTwo, configuration) executed under 4 schedules; under each schedule the composite's "
